@@ -16,7 +16,7 @@ pub async fn fresh_nexus(name: &str) -> CognitiveNexus {
     let db = AndaDB::connect(
         Arc::new(InMemory::new()),
         DBConfig {
-            name: name.replace(['-', ' '], "_"),
+            name: name.replace(['-', ' '], "_").to_lowercase(),
             description: "vgov".to_string(),
             ..Default::default()
         },
